@@ -198,6 +198,15 @@ func subsample(r *core.Run, byText map[string]*gramCase, order []string) []strin
 	return out
 }
 
+func isASCII(s string) bool {
+	for i := 0; i < len(s); i++ {
+		if s[i] >= 0x80 {
+			return false
+		}
+	}
+	return true
+}
+
 func isPanic(msg string) bool {
 	return strings.Contains(msg, "panic:") || strings.Contains(msg, "Internal error") || strings.Contains(msg, "Expected scope") ||
 		strings.Contains(msg, "runtime error")
@@ -210,6 +219,7 @@ var deliberate = []struct{ errSub, why string }{}
 
 type outRef struct {
 	cfg    int
+	cf     config
 	in     int // parser item: input validity for the goal
 	err    string
 	code   string
@@ -346,8 +356,22 @@ func evalStrings(r *core.Run, byText map[string]*gramCase, order []string, cfgs 
 	core.Parallel(len(order), 8, func(i int) {
 		c := byText[order[i]]
 		ev := strEval{c: c, src: join(c.Toks)}
+		// the structural grammars derive pure-ASCII programs (except the marked astral-identifier forms): the charset
+		// setting cannot act on them, so they run under {pretty, minify-whitespace} x charset=ascii for each goal
+		asciiStruct := structural[c.Grammar] && !strings.Contains(ev.src, "\\u") && isASCII(ev.src) && len(cfgs) > 1
+		seen := map[string]bool{}
 		for ci, cf := range cfgs {
-			o := outRef{cfg: ci, out: -1, outAlt: -1}
+			if asciiStruct {
+				if cf.Charset == "utf8" {
+					cf.Charset = "ascii"
+					cf.MinifyWS = true
+				}
+				if seen[cf.Name()] {
+					continue
+				}
+				seen[cf.Name()] = true
+			}
+			o := outRef{cfg: ci, cf: cf, out: -1, outAlt: -1}
 			o.in = p.add(ev.src, cf.Goal)
 			res := api.Transform(ev.src, cf.options())
 			if len(res.Errors) > 0 {
@@ -396,7 +420,7 @@ func evalStrings(r *core.Run, byText map[string]*gramCase, order []string, cfgs 
 				"valid_script": p.valid(ev.outs[0].in), "esbuild_error": ev.outs[0].err, "output": ev.outs[0].code})
 		}
 		for _, o := range ev.outs {
-			cf := cfgs[o.cfg]
+			cf := o.cf
 			in := &p.res[o.in]
 			inValid := in.Acorn && in.V8
 			if in.Acorn != in.V8 {
@@ -404,13 +428,8 @@ func evalStrings(r *core.Run, byText map[string]*gramCase, order []string, cfgs 
 			}
 			key := map[string]interface{}{"grammar": c.Grammar, "input": ev.src, "config": cf.Name(), "error": "", "output_error": ""}
 			if structural[c.Grammar] {
-				for _, h := range c.Heavy {
-					key["p:"+h] = true
-				}
 				for _, pn := range c.Prods {
-					if strings.HasPrefix(pn, "sc-") || strings.HasPrefix(pn, "io-") || strings.HasPrefix(pn, "fh-") || strings.HasPrefix(pn, "init-") || strings.HasPrefix(pn, "lhs-") {
-						key["p:"+pn] = true
-					}
+					key["p:"+pn] = true
 				}
 			}
 			detail := map[string]interface{}{"case": c, "input": ev.src, "config": cf, "input_valid_acorn": in.Acorn, "input_valid_v8": in.V8,
